@@ -1589,6 +1589,82 @@ def r04k(rep, F):
     rep.require_count('R04k', 'cost recurrences', n, 7)
 
 
+REGISTRY_QUERIES = ('hasSolution', 'hasExactSolution', 'hasApproximateSolution', 'hasOptimizedSolution', 'getSolutionCount',
+                    'getSolutionDifference', 'getSolutionPath', 'getSolutions')
+REGISTRY_MUTATORS = ('addSolutionPath', 'clearSolutionPaths')
+
+
+class Snapshot(paths.Client):
+    """auto = frozenset of (local key, 'fresh'|'stale') for locals holding the answer of a solution-registry query"""
+    track = 'none'
+
+    def __init__(self, fn, may_add):
+        self.may_add = may_add
+        self.bad = []
+        self.snaps = {}
+        for n in fn.walk():
+            if n['k'] == 'DeclStmt':
+                for d in n.get('decls', []):
+                    if d.get('init') and self.query(fn, d['init']):
+                        self.snaps['%s#%d' % (d['name'], d['did'])] = d['init']
+
+    @staticmethod
+    def query(fn, nid):
+        return any((c.get('callee') or '').startswith('ompl::base::ProblemDefinition::') and c['callee'].split('::')[-1] in REGISTRY_QUERIES
+                   for c in fn.walk(nid))
+
+    def init(self, fn):
+        return frozenset()
+
+    def on_node(self, fn, node, auto, ctx):
+        k = node['k']
+        if k == 'DeclStmt':
+            for d in node.get('decls', []):
+                kk = '%s#%d' % (d['name'], d['did'])
+                if kk in self.snaps:
+                    auto = frozenset(x for x in auto if x[0] != kk) | {(kk, 'fresh')}
+        elif k == 'BinaryOperator' and node.get('op') == '=' and key(fn, node['ch'][0]) in self.snaps:
+            kk = key(fn, node['ch'][0])
+            auto = frozenset(x for x in auto if x[0] != kk) | {(kk, 'fresh' if self.query(fn, node['ch'][1]) else 'other')}
+        elif node.get('callee') and (node['callee'].split('::')[-1] in REGISTRY_MUTATORS and 'ProblemDefinition' in node['callee'] or
+                                     node['callee'] in self.may_add):
+            auto = frozenset((a, 'stale' if b == 'fresh' else b) for a, b in auto)
+        elif k == 'DeclRefExpr':
+            kk = '%s#%d' % (node.get('name'), node.get('did'))
+            if (kk, 'stale') in auto:
+                par = fn.nodes.get(fn.parent.get(node['id']))
+                if not (par is not None and par['k'] == 'BinaryOperator' and par.get('op') == '=' and fn.strip(par['ch'][0]) is node):
+                    self.bad.append((kk, node['id'], ctx.path()))
+        return auto
+
+
+def r04q(rep, F, must, may):
+    rep.rule('R04q', 'answers of the solution registry are not used across a registration: a local that holds the result of a '
+                     'ProblemDefinition query (hasSolution, hasExactSolution, hasApproximateSolution, hasOptimizedSolution, getSolutionCount, '
+                     'getSolutionDifference, getSolutionPath, getSolutions) is not read on any path after a call that adds or clears solution '
+                     'paths (addSolutionPath, clearSolutionPaths, or a planner function that may add one) unless it was assigned again.  A '
+                     'stale answer hoisted out of a loop that registers solutions makes every later iteration act on the registry as it was: '
+                     'a worse solution found later overwrites the tracked best cost')
+    n = 0
+    for f in F.functions:
+        if not f.body or not f.file.endswith('.cpp') or not ('/planners/' in f.file or '/multilevel/' in f.file):
+            continue
+        if not any((c.get('callee') or '').startswith('ompl::base::ProblemDefinition::') and c['callee'].split('::')[-1] in REGISTRY_QUERIES for c in f.walk()):
+            continue
+        n += 1
+        cl = Snapshot(f, may)
+        if not cl.snaps:
+            rep.add('R04q', f.name, 'registry-answers-fresh', True, f.loc, 'every registry query is used where it is made (no snapshot)', nontrivial=False)
+            continue
+        paths.run_function(f, cl, F)
+        ok = not cl.bad
+        rep.add('R04q', f.name, 'registry-answers-fresh', ok, f.where(cl.bad[0][1]) if cl.bad else f.loc,
+                'snapshots %s are re-taken before every use that follows a registration' % sorted(nofp(k_) for k_ in cl.snaps) if ok else
+                '%s holds an answer of the solution registry taken before a call that registers (or clears) solutions and is read afterwards: '
+                'the decision is made on the registry as it was' % nofp(cl.bad[0][0]), cl.bad[0][2] if cl.bad else None)
+    rep.require_count('R04q', 'functions that query the solution registry', n, 7)
+
+
 def run(rep):
     F = facts.load_units(UNITS)
     rep.units.update(UNITS)
@@ -1607,3 +1683,17 @@ def run(rep):
     r04m(rep, F)
     r04n(rep, F)
     r04o(rep, F)
+    from rules import c03, c15
+    must, may = c03.add_summaries(F)
+    r04q(rep, F, must, may)
+    # R04p: the admissible bound of a query with several starts is the best over ALL starts (C15's R15c on the generic informed heuristic)
+    F15 = facts.load_units(c15.UNITS)
+    rep.units.update(c15.UNITS)
+    before = len(rep.obl)
+    c15.r15c(rep, F15)
+    rep.rule_text['R04p'] = rep.rule_text.pop('R15c') + '  (C15\'s R15c under C04\'s id: the heuristic solution cost is the lower bound the property compares true costs with)'
+    for o in rep.obl[before:]:
+        if o['rule'] == 'R15c':
+            o['rule'] = 'R04p'
+    rep.nontrivial = {(('R04p' if r == 'R15c' else r), fn_, role) for (r, fn_, role) in rep.nontrivial}
+    rep.broken = [b.replace('R15c', 'R04p') for b in rep.broken]
